@@ -4,6 +4,11 @@ import (
 	"fmt"
 	"os"
 	"testing"
+
+	"github.com/syndtr/goleveldb/leveldb/storage"
+
+	"verif/dbm"
+	"verif/vfs"
 )
 
 func TestDbgFaultLog(t *testing.T) {
@@ -25,4 +30,43 @@ func TestDbgFaultLog(t *testing.T) {
 		fmt.Println("files:", dbgFS.Files())
 	}
 	_ = os.Stdout
+}
+
+// TestDbgDBM replays a dbm case until it fails and prints the DB's own log
+// interleaved with the storage operations (debugging aid, not a check).
+func TestDbgDBM(t *testing.T) {
+	if replayFile() == "" {
+		t.Skip()
+	}
+	c := &dbm.Case{}
+	if err := loadReplay(c); err != nil {
+		t.Fatal(err)
+	}
+	vfs.TextLog = os.Getenv("VERIF_TEXTLOG") != ""
+	for r := 0; r < envInt("VERIF_REPLAY_RUNS", 200); r++ {
+		_, err := dbm.Run(c)
+		if err != nil {
+			e := dbm.LastEnv
+			fmt.Println("RUN", r, "ERR:", err)
+			txt := e.FS.Text()
+			if n := envInt("VERIF_DBG_LINES", 400); len(txt) > n {
+				txt = txt[len(txt)-n:]
+			}
+			for _, l := range txt {
+				fmt.Println(l)
+			}
+			fmt.Println("files:", e.FS.Files())
+			for _, fd := range e.FS.Files() {
+				if fd.Type != storage.TypeTable {
+					continue
+				}
+				fmt.Printf("table %v:\n", fd)
+				for _, l := range e.DumpTable(fd.Num) {
+					fmt.Println("    " + l)
+				}
+			}
+			return
+		}
+	}
+	fmt.Println("no failure")
 }
